@@ -65,6 +65,7 @@ ASSUMPTIONS = [
     "progress is judged for a consumer that keeps reading, with the complete body on the wire",
 ]
 MAXSIZE = sys.maxsize
+BROTLI_SLACK = 32768   # Brotli's Decompressor.process(data, limit) may exceed `limit` by up to one block
 LIMITS = [1, 2, 3, 5, 16, 100, 1024, 4096, 4096, 16384, 65536]
 
 
@@ -326,13 +327,14 @@ class Pipeline:
         if self.client:
             buf = self.proto._buffer
             if not buf:
-                raise RuntimeError("no response message parsed")
+                return False
             msg, payload = buf[0]
         else:
             if not self.msgs:
-                raise RuntimeError("no request message parsed")
+                return False    # the first call raised before returning the message (malformed first chunk line)
             msg, payload = self.msgs[0]
         self.msg, self.payload = msg, payload
+        return True
 
     # -- ops ---------------------------------------------------------------------------
     def deliver(self, seg):
@@ -616,11 +618,13 @@ def _run_case(case, loop, rec, max_ops):
     toks, trace = [], []
     if case["merge_head"] and queue:
         first = queue.pop(0)
-        p.start(head + first)
+        if not p.start(head + first):
+            return None
         toks.append("D:" + hx(first))
         trace.append("-/" + p.state())
     else:
-        p.start(head)
+        if not p.start(head):
+            return None
     if p.payload is None or type(p.payload).__name__ != "StreamReader":
         return None
     delivered = bytearray()
@@ -787,7 +791,11 @@ def oracle(ctx, case, info):
                                       f"end-of-body ({final[1]}; {len(delivered)} bytes so far; has_more={info['has_more']}, "
                                       f"transport paused={info['tr_paused']})")
         elif final[0] == "err":
-            if final[1] == "E_CONN_CLOSED":
+            if final[1] == "E_TRANSFER_ENCODING" and info["closed"] and case["framing"] == "C":
+                ctx.violation("C09/lost-body/peer-close-while-chunk-input-pending", c,
+                              f"valid complete chunked body, peer closed after the last byte while the paused parser still "
+                              f"held unparsed input: read raised TransferEncodingError after {len(delivered)} bytes")
+            elif final[1] == "E_CONN_CLOSED":
                 ctx.violation("C09/lost-body/peer-close-while-decoder-pending", c,
                               f"valid complete body, peer closed after the last byte: read raised RuntimeError('Connection "
                               f"closed.') after {len(delivered)} bytes")
@@ -799,8 +807,13 @@ def oracle(ctx, case, info):
     if header_encoding(enc) and info["low"] < MAXSIZE:
         bound = info["high"] + 2 * max(limit, info["low"])
         if info["peak"] > bound:
-            ctx.violation("C09/memory/decoded-resident-exceeds-bound", c,
-                          f"peak buffered {info['peak']} > high_water {info['high']} + 2*max(limit, low_water) = {bound}")
+            if enc == "br" and info["peak"] <= bound + 2 * BROTLI_SLACK:
+                ctx.violation("C09/memory/brotli-overshoots-max-length", c,
+                              f"peak buffered {info['peak']} > high_water {info['high']} + 2*max(limit, low_water) = {bound}: "
+                              f"brotli returns up to one 32 KiB block per call whatever max_length says")
+            else:
+                ctx.violation("C09/memory/decoded-resident-exceeds-bound", c,
+                              f"peak buffered {info['peak']} > high_water {info['high']} + 2*max(limit, low_water) = {bound}")
     # --- client_max_size
     if case["mode"] == "req" and info["req"] is not None and case["cms"]:
         cms = case["cms"]
@@ -812,6 +825,13 @@ def oracle(ctx, case, info):
             ctx.violation("C09/client-max-size/rejected-within-limit", c, f"413 for a {len(ref[1])}-byte body, client_max_size {cms}")
         if info["req"][0] == "ok" and ref[0] == "ok" and len(ref[1]) > cms:
             ctx.violation("C09/client-max-size/accepted-over-limit", c, f"{len(ref[1])}-byte body accepted, client_max_size {cms}")
+
+
+def _law_bounded(ctx, case, enc, n, m):
+    if enc == "br" and n <= m + BROTLI_SLACK:
+        ctx.violation("C09/memory/brotli-overshoots-max-length", case, f"br: output {n} > max_length {m} (within one 32 KiB block)")
+    else:
+        ctx.violation("C09/codec-law/bounded", case, f"{enc}: output {n} > max_length {m}")
 
 
 def check_codec_laws(ctx, enc, body, rng):
@@ -839,7 +859,7 @@ def check_codec_laws(ctx, enc, body, rng):
             o = d.decompress_sync(s, max_length=m)
             out += o
             if m and len(o) > m:
-                ctx.violation("C09/codec-law/bounded", case, f"{enc}: output {len(o)} > max_length {m}")
+                _law_bounded(ctx, case, enc, len(o), m)
             guard = 0
             while d.data_available:
                 if not o and guard:
@@ -849,7 +869,7 @@ def check_codec_laws(ctx, enc, body, rng):
                 out += o
                 guard += 1
                 if m and len(o) > m:
-                    ctx.violation("C09/codec-law/bounded", case, f"{enc}: output {len(o)} > max_length {m}")
+                    _law_bounded(ctx, case, enc, len(o), m)
                 if guard > 10_000_000:
                     break
     except Exception:
@@ -929,7 +949,7 @@ def check(ctx):
     try:
         # fixed scenarios first (known findings keep their own signatures)
         run_and_compare(ctx, [c for _, c in finding_cases()], "pipeline vs Aio.C09.run (fixed scenarios)")
-        n = 1500 if ctx.quick else 30000
+        n = 1000 if ctx.quick else 24000
         cases = []
         for _ in range(n):
             cases.append(gen_case(rng, ctx.quick, encs))
